@@ -81,27 +81,32 @@ func (tree *MutableTree) GetLatestVersion() (int64, error) {
 
 // VersionExists returns whether or not a version exists.
 func (tree *MutableTree) VersionExists(version int64) bool {
+	exists, err := tree.versionExists(version)
+	return err == nil && exists
+}
+
+// versionExists is VersionExists with storage errors reported to the caller.
+func (tree *MutableTree) versionExists(version int64) (bool, error) {
 	legacyLatestVersion, err := tree.ndb.getLegacyLatestVersion()
 	if err != nil {
-		return false
+		return false, err
 	}
 	if version <= legacyLatestVersion {
-		has, err := tree.ndb.hasLegacyVersion(version)
-		return err == nil && has
+		return tree.ndb.hasLegacyVersion(version)
 	}
 	firstVersion, err := tree.ndb.getFirstVersion()
 	if err != nil {
-		return false
+		return false, err
 	}
 	found, latestVersion, err := tree.ndb.getLatestVersion()
 	if err != nil {
-		return false
+		return false, err
 	}
 	if !found {
-		return false
+		return false, nil
 	}
 
-	return firstVersion <= version && version <= latestVersion
+	return firstVersion <= version && version <= latestVersion, nil
 }
 
 // AvailableVersions returns all available versions in ascending order
@@ -480,7 +485,11 @@ func (tree *MutableTree) LoadVersion(targetVersion int64) (int64, error) {
 	if targetVersion <= 0 {
 		targetVersion = latestVersion
 	}
-	if !tree.VersionExists(targetVersion) {
+	exists, err := tree.versionExists(targetVersion)
+	if err != nil {
+		return 0, err
+	}
+	if !exists {
 		return 0, ErrVersionDoesNotExist
 	}
 	rootNodeKey, err := tree.ndb.GetRoot(targetVersion)
@@ -665,7 +674,11 @@ func (tree *MutableTree) Rollback() {
 // GetVersioned gets the value at the specified key and version. The returned value must not be
 // modified, since it may point to data stored within IAVL.
 func (tree *MutableTree) GetVersioned(key []byte, version int64) ([]byte, error) {
-	if tree.VersionExists(version) {
+	exists, err := tree.versionExists(version)
+	if err != nil {
+		return nil, err
+	}
+	if exists {
 		if !tree.skipFastStorageUpgrade {
 			isFastCacheEnabled, err := tree.IsFastCacheEnabled()
 			if err != nil {
@@ -673,19 +686,23 @@ func (tree *MutableTree) GetVersioned(key []byte, version int64) ([]byte, error)
 			}
 
 			if isFastCacheEnabled {
-				fastNode, _ := tree.ndb.GetFastNode(key)
-				if fastNode == nil && version == tree.ndb.getCachedLatestVersion() {
-					return nil, nil
-				}
+				// if the fast node cannot be read, fall back to the tree below,
+				// which reports its own errors.
+				fastNode, err := tree.ndb.GetFastNode(key)
+				if err == nil {
+					if fastNode == nil && version == tree.ndb.getCachedLatestVersion() {
+						return nil, nil
+					}
 
-				if fastNode != nil && fastNode.GetVersionLastUpdatedAt() <= version {
-					return fastNode.GetValue(), nil
+					if fastNode != nil && fastNode.GetVersionLastUpdatedAt() <= version {
+						return fastNode.GetValue(), nil
+					}
 				}
 			}
 		}
 		t, err := tree.GetImmutable(version)
 		if err != nil {
-			return nil, nil
+			return nil, err
 		}
 		value, err := t.Get(key)
 		if err != nil {
@@ -713,7 +730,11 @@ func (tree *MutableTree) SaveVersion() ([]byte, int64, error) {
 	version := tree.WorkingVersion()
 	tree.initialVersionSet = false
 
-	if tree.VersionExists(version) {
+	exists, err := tree.versionExists(version)
+	if err != nil {
+		return nil, version, err
+	}
+	if exists {
 		// If the version already exists, return an error as we're attempting to overwrite.
 		// However, the same hash means idempotent (i.e. no-op).
 		existingNodeKey, err := tree.ndb.GetRoot(version)
